@@ -25,10 +25,9 @@ CORPUS = os.path.join(lib.VERIF, "corpus", "C08.jsonl")
 
 KNOWN = {
     # index of the failing hypothesis in MacroEval.wf_report -> known-finding key
-    1: "attached_condition_not_renamed",
     0: "generated_name_collides_with_user_identifier",
-    2: "unbound_macro_identifier_captured",
-    3: "unbound_macro_identifier_captured",      # a head-position macro with identifiers of its own: nothing binds them
+    1: "unbound_macro_identifier_captured",
+    2: "unbound_macro_identifier_captured",      # a head-position macro with identifiers of its own: nothing binds them
 }
 
 
@@ -106,8 +105,9 @@ def gen_cases(tier, seed):
         cases.append(dict(id="c08_%d" % i, prog=p, feats=feats, inputs=[c08_gen.gen_input(rng) for _ in range(ninp)], origin="generated well-formed"))
     for i in range(ndef):
         kind, f = c08_gen.DEFECTS[i % len(c08_gen.DEFECTS)]
-        cases.append(dict(id="c08_x%d" % i, prog=f(rng), feats=["outside_hypotheses:" + kind], inputs=[c08_gen.gen_input(rng) for _ in range(ninp)],
-                          origin="generated outside the hypotheses (%s)" % kind))
+        inside = kind in c08_gen.INSIDE
+        cases.append(dict(id="c08_x%d" % i, prog=f(rng), feats=[("template:" if inside else "outside_hypotheses:") + kind], inputs=[c08_gen.gen_input(rng) for _ in range(ninp)],
+                          origin="generated %s (%s)" % ("from a template" if inside else "outside the hypotheses", kind)))
     nneg = 6 if tier == "quick" else 40
     negs = []
     for i in range(nneg):
@@ -263,15 +263,15 @@ def tie(tier, seed, replay):
     for c in cases:
         rels = c["prog"]["rels"]
         wf = c["wf"]
-        all_wf = bool(wf[4])
+        all_wf = bool(wf[3])
         nwf += 1 if all_wf else 0
-        failing = [i for i in (0, 1, 2, 3) if not wf[i]]
+        failing = [i for i in (0, 1, 2) if not wf[i]]
         for f in c["feats"]:
             feats[f] = feats.get(f, 0) + 1
         for k, inp in enumerate(c["inputs"]):
             evaluations += 1
             cs = dict(id=c["id"], origin=c["origin"], program=c["text"], hand_expansion=c.get("hand_text"), prog=c["prog"], input={r: [list(t) for t in ts] for r, ts in inp.items()},
-                      hypotheses=dict(identifiers_ok=wf[0], no_attached_conditions=wf[1], locals_bound=wf[2], head_macros_closed=wf[3], all=wf[4]))
+                      hypotheses=dict(identifiers_ok=wf[0], locals_bound=wf[1], head_macros_closed=wf[2], all=wf[3]))
             im = impl_outcome((impl.get(c["id"] + "_m") or [None] * len(c["inputs"]))[k], rels)
             ih = impl_outcome((impl.get(c["id"] + "_h") or [None] * len(c["inputs"]))[k], rels) if c["hand"] is not None else ("rejected", "hand expansion does not terminate")
             mo, hy = c["model"][k], c["hyg"][k]
@@ -341,7 +341,7 @@ def tie(tier, seed, replay):
                 trusted_base=["gen/c08_macros.py renderers (Rust text, Gallina term) and the python hand expander; gen/prog.py generated crates",
                               "Macros/MacroEval.v: translation of an expanded rule to Engine/Core.v and the scoping check standing for rustc's / ascent's compile errors",
                               "origin tags stand for token spans: every token of the program text has its own span under rustc (spans_eq compares Debug output)"],
-                assumptions=["expression actuals are atomic expressions of the fixed vocabulary (token-level substitution of a non-atomic actual next to an operator is outside the model; corpus case `expr_param_precedence`)",
+                assumptions=["an `expr` actual is one expression node (since fix 7f45914 the macro parenthesises non-atomic actuals; corpus case `expr_param_precedence` checks it on raw Rust operators outside the model's vocabulary)",
                              "macro definitions and rules are written directly in the ascent! invocation (no include_source!, no macro_rules! producing the program)"],
                 extra=dict(wall_tie_s=round(time.time() - t_start, 1)))
 
